@@ -138,7 +138,10 @@ C01_Mirror == (ev.ev = "DrainEnd" /\ cur["A"].sel # 0 /\ cur["B"].sel # 0 /\ InS
 \* the convergence obligation: an agent pair that still can (a two-way path whose pairs are not
 \* exhausted on either side, opposite roles or distinct tie-breakers, nobody Failed) has connected
 \* after the fair, loss-free suffix
-Usable(o, a, lc, rm) == ~\E p \in Rng(o[a].pairs) : p.l = lc /\ p.r = rm /\ p.st = "F"
+\* "within the per-pair retry budget": the pair has not failed, and a controlling agent (which sends no triggered checks)
+\* can still send a check of its own on it
+Usable(o, a, lc, rm) == ~\E p \in Rng(o[a].pairs) : p.l = lc /\ p.r = rm /\
+                           (p.st = "F" \/ ((o[a].role = "controlling" \/ o["A"].role = o["B"].role) /\ p.st = "I" /\ p.reqs > MaxReq))
 CanConverge(o) ==
   /\ \A a \in Agents : o[a].conn \in {"Checking", "Connected", "Disconnected"}
   /\ \E la \in LocalsA : \E lb \in LocB :
